@@ -107,10 +107,10 @@ def _worker(args):
     return verify_one(*args)
 
 
-def verify_many(targets, timeout_ms=20000, cross=False, procs=None):
+def verify_many(targets, timeout_ms=20000, cross=False, procs=None, only_labels=None):
     procs = procs or min(16, max(1, len(targets)))
     if len(targets) == 1 or procs == 1:
-        return [verify_one(t, timeout_ms, cross) for t in targets]
+        return [verify_one(t, timeout_ms, cross, only_labels) for t in targets]
     ctx = mp.get_context("fork")
     with ctx.Pool(procs) as pool:
         return pool.map(_worker, [(t, timeout_ms, cross) for t in targets], chunksize=1)
@@ -125,6 +125,7 @@ def main(argv=None):
     ap.add_argument("--timeout", type=int, default=20000)
     ap.add_argument("-v", action="store_true")
     ap.add_argument("--models", action="store_true")
+    ap.add_argument("--only", action="append", default=[], help="discharge only obligations whose name contains this text")
     a = ap.parse_args(argv)
     reg = load_contracts()
     targets = list(a.contract)
@@ -132,7 +133,7 @@ def main(argv=None):
         targets += [c.target for c in reg.for_property(a.prop)]
     if not targets:
         targets = sorted(reg.contracts)
-    res = verify_many(targets, a.timeout)
+    res = verify_many(targets, a.timeout, only_labels=a.only or None)
     bad = 0
     for r in res:
         nb = len(r["obligations"])
